@@ -87,6 +87,11 @@ DESC = {
  "C12c": "strict `<` / `>` of groups compare `required` with `names` (equal groups with implied dimensions)",
  "C15c": "second distribution branch of the legacy normal form uses `self._lhs` / `self._rhs` (NOT over a nested group)",
  "C19c": "`break` instead of `continue` in `_computeDatasetAssociations` (CALIBRATION exported, no TAGGED, non-calibration type first)",
+ "C02d": "governor summary rows written only when a dataset-type row was new (new instrument for an already summarised type)",
+ "C07c": "undo errors swallowed around the whole rollback loop instead of per event (put, ingest, purge of the ingested dataset, then failure)",
+ "C10c": "`REPLACE` mode falls through in `_register_datasets`: no location row (datasets stored by `transfer_from`)",
+ "C13c": "defaults merged before the dimension group is inferred in `standardize` (default instrument, data ID without it)",
+ "C16d": "`yield_per` → `limit` in `any(exact=True)` with post-filtering (first 10 raw rows all rejected)",
  "C20a": "dimension-group re-read moved out of the locked block (two clients, new dimension group)",
  "C20b": "`ensureTableExists` no longer absorbs SQLite's 'table already exists' (two clients, new dynamic table)",
 }
